@@ -21,14 +21,15 @@ KIND_SRC = {
     "Attribute": ["a.b", "(1).real", "1.5.real", "a.b.c", "'s'.x", "(-1).x"],
     "Subscript": ["a[b]", "a[1:2]", "a[::2]", "a[1:2,3]", "a[1:2,]", "a[b,c]", "a[:,...,None]", "a[()]", "a[b:c:d, e:f]"],
     "Call": ["f()", "f(a)", "f(a,b)", "f(*a)", "f(a,k=b)", "f(**k)", "f(a for b in c)", "f(a,*b,k=c,**d)",
-             "f((a for b in c), d)", "f(k=(x:=1))", "f(x:=1)", "f(x:=1, y)"],
+             "f((a for b in c), d)", "f(k=(x:=1))", "f(x:=1)", "f(x:=1, y)", "f(a, **b, c=1)", "f(**a, b=1, **c)", "f(*a, b, *c, d=1)"],
     "Await": ["await a", "await a.b", "await f(x)"],
     "Compare": ["a<b", "a<b<=c", "a is not b", "a not in b in c", "a==b!=c>d>=e"],
     "IfExp": ["a if b else c", "a if b else c if d else e", "(a if b else c) if d else e"],
     "Lambda": ["lambda: 0", "lambda a: a", "lambda a, b=1: a", "lambda a, /, b: a", "lambda a=1, /, b=2: a",
                "lambda *a: a", "lambda *, k: k", "lambda *, k=1, m: k", "lambda a, *b, c=1, d, **e: a",
                "lambda **k: k", "lambda a, /: a", "lambda a, b=1, /, c=2, *, d, e=3, **f: a",
-               "lambda a, b, /, c=1: a", "lambda a, b=2, c=3: a"],
+               "lambda a, b, /, c=1: a", "lambda a, b=2, c=3: a", "lambda a, b=1, /: a", "lambda a=0, b=1, /, *r: a", "lambda a=None, /, **k: a",
+               "lambda a=1, /, *, k: a", "lambda *, k=1, m=2, **z: k"],
     "NamedExpr": ["(a:=b)", "(a:=b if c else d)", "(a:=lambda: 0)"],
     "GeneratorExp": ["(a for b in c)", "(a for b in c if d)", "(a async for b in c)"],
     "Yield": ["(yield)", "(yield a)", "(yield a, b)"],
@@ -45,6 +46,15 @@ for _n, _t in {"UAdd": "+", "USub": "-", "Invert": "~", "Not": "not "}.items():
     KIND_SRC[f"UnaryOp.{_n}"] = [f"{_t}p", f"{_t}{_t}p", f"{_t}(p+q)"]
 for _n, _t in {"And": "and", "Or": "or"}.items():
     KIND_SRC[f"BoolOp.{_n}"] = [f"p {_t} q", f"p {_t} q {_t} r", f"p {_t} (q {_t} r)", f"(p {_t} q) {_t} r"]
+
+
+DEEP_SRC = [
+    "-((a+b)*(c+d))", "((a+b)*(c+d))**2", "not ((a or b) and (c or d))", "((a,b)+(c,d)).count", "[((i,j) for i in f(n))]",
+    "(a if b else c)(d)", "(lambda: x)()", "(a, b)[0]", "(yield)", "(await a)**b", "-(-a)", "(-a)**-b", "a**-b**c", "(a**b)**c",
+    "a < (b < c)", "(a < b) < c", "a if (b if c else d) else e", "(a and b) or (c and d)", "a and (b or c) and d", "not (not a)",
+    "(a := 1) + (b := 2)", "[x for x in (a if b else c)]", "[x for x in a if (b if c else d)]", "{**(a or b)}", "f(*(a or b), **(c or d))",
+    "(a.b)(c)[d].e", "(1).real + 1.5.imag", "a[(b, c)]", "a[b:c, (d, e)]", "(*a, b)", "f'{(lambda: 1)()}'", "f'{(a := 1)}'",
+]
 
 
 def parse_expr(src):
